@@ -126,6 +126,7 @@ def run(rep, tier, seed, model_ok=True, effort=1):
             if code == 0 and kind != "increment":
                 rep.sample(dict(args=" ".join(args), new=new, kind=kind))
     update_runs(rep, impl, r, tier, effort)
+    vcs_tag_runs(rep, impl, common.rng(seed, "c01-vcs"), tier, effort)
     if model_ok:
         bad, errs = common.coq_eval("c01", HDR, "list N * list N * flags * option (option Z) * option (list N) * cli_res",
                                     "fun '(o, p, fl, d, sv, e) => eqb_cli_res (test_cmd_v2 (%s) o p fl d sv) e" % cz(today), items, shard=100)
@@ -179,6 +180,43 @@ def update_runs(rep, impl, r, tier, effort):
             else:
                 if after != before:
                     rep.violation("update exited non-zero but changed project files", input=inp, **{"class": "failed-but-wrote"})
+
+
+def vcs_tag_runs(rep, impl, r, tier, effort):
+    """`update` where the version to start from comes from VCS tags (fake git): whatever happens to the fetch, an exit 0 must
+    announce a version greater than the config value AND than the newest matching tag in scope; otherwise nothing may change."""
+    import packaging.version as pv
+    from . import project
+    scen = []
+    for fetch in ("--no-fetch", "--fetch"):
+        for fail in ([], ["fetch"]):
+            if fail and fetch == "--no-fetch":
+                continue
+            for cfgv, tags in (("1.0.0", ["1.0.5", "0.9.0"]), ("1.0.0", ["1.0.0", "0.2.0"]), ("2.0.0", ["1.9.9"]), ("1.9.0", ["1.10.0", "1.9.0"])):
+                for extra in ([], ["--set-version", "1.0.3"], ["--set-version", "9.0.0"], ["--dry"]):
+                    scen.append((fetch, fail, cfgv, tags, extra))
+    r.shuffle(scen)
+    for fetch, fail, cfgv, tags, extra in scen:
+        prj = project.TempProject("MAJOR.MINOR.PATCH", cfgv, files={"a.txt": ["ver = {version}"]}, commit=True, tag=True, push=False, vcs="fakegit",
+                                  vcs_cfg=dict(tags=list(tags), status="", remote="origin", fail=list(fail), usable=True))
+        with prj:
+            before = prj.snapshot()
+            args = ["update", fetch] + (extra if "--set-version" in extra else ["--patch"] + extra)
+            code, out, logs, exc = prj.run(impl, args)
+            after = prj.snapshot()
+            new = next((l.split("New Version: ", 1)[1] for l in logs if "New Version: " in l), None)
+        start = max([pv.Version(cfgv)] + [pv.Version(t) for t in tags])
+        rep.case(("vcs-tags", fetch, tuple(fail), cfgv, tuple(tags), tuple(extra)), nontrivial=code == 0)
+        rep.count("vcs-tag-runs:%s" % ("exit0" if code == 0 else "nonzero"))
+        inp = dict(args=args, config_version=cfgv, tags=tags, failing_vcs_commands=fail, exit=code, new=new, logs=logs[-5:])
+        if code == 0:
+            if new is None or not (pv.Version(new) > start):
+                rep.violation("update exits 0 with %s, not greater than the version it had to start from (%s: config %s, tags %s)" % (new, start, cfgv, tags),
+                              input=inp, **{"class": "not-greater-than-tag"})
+            if "--dry" in extra and after != before:
+                rep.violation("update --dry changed files", input=inp, **{"class": "dry-wrote"})
+        elif after != before:
+            rep.violation("update exited non-zero but changed project files", input=inp, **{"class": "failed-but-wrote"})
 
 
 def search(rep, tier, seed, effort=2):
